@@ -4,6 +4,8 @@ CONSTANTS
   NinSet = {1, 2}
   NchSet = {0, 1, 2}
   Emit = TRUE
+  PairFlows = {"send", "late", "self", "inv", "invself"}
+  WithSingles = TRUE
 SPECIFICATION Spec
 INVARIANT Inv_Reply
 INVARIANT Inv_Honest
